@@ -28,24 +28,34 @@ def _try(name):
 
 # ------------------------------------------------------------------ RP66V1
 def rp66v1(rng, scale=1, layout=None, convertible=False):
-    from . import dlis
-    if convertible and not hasattr(_try('logpass'), 'provider_records'):
-        from . import example_files
+    """A valid RP66V1 file: FILE-HEADER, populated ORIGIN, CHANNEL/FRAME sets and frame data in a random physical layout
+    (or, for a share of the non-convertible requests, opaque records / encrypted records / foreign sets)."""
+    from . import dlis, dlis_convertible, example_files, logpass
+    if convertible and scale == 1 and rng.random() < 0.05:
         return example_files.example(rng, 'rp66v1')
     lay = layout or dlis.random_layout(rng)
-    lp = _try('logpass')
-    if lp is not None and hasattr(lp, 'provider_records'):
-        lrs, desc = lp.provider_records(rng, scale)
+    model = None
+    r = rng.random()
+    if convertible or r < 0.5:
+        lrs, model = dlis_convertible.convertible_file(rng, max_frames=20 * scale if scale > 1 else rng.choice([5, 20, 40]))
+        desc = 'convertible log pass file'
+    elif r < 0.8:
+        lrs, model = logpass.random_logpass_file(rng, max_frames=20 * scale)
+        desc = 'log pass file with encrypted records and foreign sets'
+        model = None
     else:
         lrs, desc = dlis.random_records(rng, n=rng.randrange(1, 12) * scale, vr_cap=lay['vr_cap']), 'opaque records'
-    data, model = dlis.write_file_safe(rng, lrs, layout=lay)
-    bounds = [dlis.SUL_SIZE] + [p for p, _ in model.vrs] + [s.position for r in model.records for s in r.segments]
+    data, phys = dlis.write_file_safe(rng, lrs, layout=lay)
+    bounds = [dlis.SUL_SIZE] + [p for p, _ in phys.vrs] + [s.position for rm in phys.records for s in rm.segments]
 
     def regen(rng2):
-        return rp66v1(rng2, scale=10, layout=lay)
+        return rp66v1(rng2, scale=10, layout=lay, convertible=convertible)
 
-    return Valid(data, 'RP66V1', {'sul': model.sul.as_bytes()[:20].decode('ascii'), 'vr_cap': lay['vr_cap'], 'records': len(lrs), 'content': desc},
-                 nontrivial=model.is_nontrivial(), classes=model.classes()[:4], boundaries=bounds, regen=regen)
+    v = Valid(data, 'RP66V1', {'sul': phys.sul.as_bytes()[:20].decode('ascii'), 'vr_cap': lay['vr_cap'], 'records': len(lrs), 'content': desc},
+              nontrivial=phys.is_nontrivial(), classes=phys.classes()[:4], boundaries=bounds, regen=regen)
+    v.expect_las = sum(len(lf.frame_types) for lf in model.logical_files) if model is not None else None
+    v.model = model
+    return v
 
 
 def available():
